@@ -210,28 +210,12 @@ func ruleFATAL1(c *Ctx) {
 	c.check(true, "terminates/scan", nil, fmt.Sprintf("%d reachable module functions scanned for process-terminating calls (%d found, all tabled)", len(reach), nExit), "")
 	// (b) unbounded native recursion over script-built values
 	bounded := map[string]func() (bool, string){
-		"recursion/tengo/badVerb+fmtBool+fmtFloat+fmtInteger+fmtString+printArg": func() (bool, string) {
-			// badVerb re-enters printArg with verb 'v', which returns before the type dispatch
-			pa := w.FuncDecl(w.Root, "pp.printArg")
-			if pa == nil {
-				return false, "pp.printArg not found"
-			}
-			ok := false
-			ast.Inspect(pa.Body, func(n ast.Node) bool {
-				cc, isCC := n.(*ast.CaseClause)
-				if !isCC || len(cc.List) != 1 {
-					return true
-				}
-				if k, isK := ConstInt(w.Root, cc.List[0]); isK && k == 'v' && len(cc.Body) > 0 {
-					if _, isRet := cc.Body[len(cc.Body)-1].(*ast.ReturnStmt); isRet {
-						ok = true
-					}
-				}
-				return true
-			})
+		"recursion/tengo/badVerb+fmtBool+fmtBytes+fmtFloat+fmtInteger+fmtString+printArg": func() (bool, string) {
+			// badVerb re-enters printArg with verb 'v' only, and every typed
+			// formatter has an arm for 'v' that does not report a bad verb
 			bv := w.FuncDecl(w.Root, "pp.badVerb")
-			if bv == nil || !ok {
-				return false, "printArg no longer returns early for verb 'v'"
+			if bv == nil {
+				return false, "pp.badVerb not found"
 			}
 			onlyV := true
 			ast.Inspect(bv.Body, func(n ast.Node) bool {
@@ -243,7 +227,38 @@ func ruleFATAL1(c *Ctx) {
 				}
 				return true
 			})
-			return onlyV, "badVerb re-enters printArg only with verb 'v', which returns before dispatching (depth 2)"
+			if !onlyV {
+				return false, "badVerb re-enters printArg with a verb other than 'v'"
+			}
+			for _, fn := range []string{"pp.fmtBool", "pp.fmtInteger", "pp.fmtFloat", "pp.fmtString", "pp.fmtBytes"} {
+				fd := w.FuncDecl(w.Root, fn)
+				if fd == nil {
+					return false, fn + " not found"
+				}
+				handled := false
+				ast.Inspect(fd.Body, func(n ast.Node) bool {
+					cc, isCC := n.(*ast.CaseClause)
+					if !isCC {
+						return true
+					}
+					for _, e := range cc.List {
+						if k, isK := ConstInt(w.Root, e); isK && k == 'v' {
+							bad := containsNode(cc, func(m ast.Node) bool {
+								call, ok := m.(*ast.CallExpr)
+								return ok && isMethodOf(Callee(w.Root, call), w.Root.Types, "pp", "badVerb")
+							})
+							if !bad {
+								handled = true
+							}
+						}
+					}
+					return true
+				})
+				if !handled {
+					return false, fn + " has no arm for verb 'v' that formats without reporting a bad verb"
+				}
+			}
+			return true, "badVerb re-enters printArg only with verb 'v', which every typed formatter handles without reporting a bad verb (depth 2)"
 		},
 		"recursion/json/array+object+value": func() (bool, string) {
 			fd := w.FuncDecl(w.JSON, "scanner.pushParseState")
@@ -259,6 +274,29 @@ func ruleFATAL1(c *Ctx) {
 	}
 	for _, comp := range w.sccs(reach) {
 		key := "recursion/" + sccPkgs(comp) + "/" + sccKey(comp)
+		// a tabled component keeps its identity when a refactoring adds a
+		// helper to the cycle: match on "contains all the tabled functions"
+		if _, exact := bounded[key]; !exact {
+			have := map[string]bool{}
+			for _, f := range comp {
+				have[f.Name()] = true
+			}
+			prefix := "recursion/" + sccPkgs(comp) + "/"
+			for bk := range bounded {
+				if !strings.HasPrefix(bk, prefix) {
+					continue
+				}
+				all := true
+				for _, nm := range strings.Split(strings.TrimPrefix(bk, prefix), "+") {
+					if !have[nm] {
+						all = false
+					}
+				}
+				if all {
+					key = bk
+				}
+			}
+		}
 		if prem, isB := bounded[key]; isB {
 			good, why := prem()
 			c.check(good, key, &posNode{comp[0].Pos()}, "recursion bounded: "+why, "recursion was tabled as bounded but its premise no longer holds: "+why)
